@@ -283,6 +283,14 @@ class Check:
         self.rule = ""
         self.extra = {}
         self.known = load_known(pid)
+        d = os.path.join(VERIF, "replays")
+        if os.path.isdir(d) and not os.environ.get("VERIF_KEEP_REPLAYS"):
+            for fn in os.listdir(d):
+                if fn.startswith(pid + "-"):
+                    try:
+                        os.remove(os.path.join(d, fn))
+                    except OSError:
+                        pass
 
     # -- obligations
     def oblige(self, name, ok, note=""):
